@@ -64,6 +64,10 @@ pub fn random_history(rng: &mut Rng, fl: &str, id: &str, nnodes: usize, ncalls: 
         if rng.chance(25) {
             l.push(format!("q {} {}", rng.below(nnodes), rng.below(nnodes)));
         }
+        if rng.chance(8) {
+            l.push(format!("sz {}", rng.below(nnodes)));
+            l.push(format!("nv {}", rng.below(nnodes)));
+        }
     }
     l
 }
